@@ -80,6 +80,7 @@ func main() {
 	replay := flag.String("replay", "", "violation file to re-run")
 	noEvidence := flag.Bool("no-evidence", false, "do not write evidence (used for scratch trees)")
 	list := flag.Bool("list", false, "list properties and rules")
+	mutantID := flag.String("mutant", "", "(internal) run the property's rules on the overlay mutant with this id and print violation keys")
 	flag.Parse()
 	if *tier == "" {
 		*tier = os.Getenv("VERIF_TIER")
@@ -131,6 +132,20 @@ func main() {
 	if spec == nil {
 		fmt.Printf("unknown or unclaimed property %q\n", *prop)
 		os.Exit(2)
+	}
+	if *mutantID != "" {
+		ms, err := loadMutants(verifDir())
+		if err != nil {
+			fmt.Println("MUTANT-BROKEN", err)
+			os.Exit(0)
+		}
+		for _, m := range ms {
+			if m.ID == *mutantID {
+				os.Exit(runMutantChild(spec, *repo, m))
+			}
+		}
+		fmt.Println("MUTANT-SKIP unknown mutant")
+		os.Exit(0)
 	}
 	os.Exit(runProperty(spec, *repo, *tier, onlyKey, !*noEvidence))
 }
@@ -256,6 +271,34 @@ func runProperty(spec *propSpec, repo, tier, onlyKey string, writeEv bool) (code
 	if onlyKey != "" && nOK+nViol+nKnown == 0 {
 		fmt.Printf("replay: obligation %s no longer exists on this tree\n", onlyKey)
 	}
+	var mres []mutantResult
+	if tier == "thorough" && onlyKey == "" {
+		base := map[string]bool{}
+		for _, o := range obs {
+			if o.Verdict != OK {
+				base[o.Key] = true
+			}
+		}
+		var err error
+		mres, err = selfValidate(spec, repo, vdir, base)
+		if err != nil {
+			fmt.Println("self-validation skipped:", err)
+		}
+		k, sv, sk := 0, 0, 0
+		for _, r := range mres {
+			switch r.Status {
+			case "killed":
+				k++
+			case "survived":
+				sv++
+				fmt.Printf("SELF-VALIDATION: mutant %s SURVIVED (%s)\n", r.ID, r.Detail)
+			default:
+				sk++
+			}
+		}
+		fmt.Printf("self-validation: %d overlay mutants: %d killed, %d survived, %d skipped/broken\n", len(mres), k, sv, sk)
+		selfValidation = mres
+	}
 	wall := time.Since(start).Seconds()
 	if writeEv {
 		writeEvidence(vdir, spec, ctx, obs, tier, seed, nOK, nViol, nKnown, len(distinct), wall, known)
@@ -330,12 +373,15 @@ func writeEvidence(vdir string, spec *propSpec, c *Ctx, obs []Ob, tier string, s
 			"checker_cmd":         "bin/lhcheck -property " + spec.ID + " -tier " + tier,
 			"trusted_base":        []string{"go/packages, go/types, go/ssa, callgraph/vta+cha from golang.org/x/tools v0.29.0", "Go 1.23 type checker", "slot tables in lhcheck (hand-written, fail loudly when unresolved)"},
 			"exhaustive":          true,
+			"self_validation":     selfValidation,
 		},
 	}
 	b, _ := json.MarshalIndent(ev, "", " ")
 	os.MkdirAll(filepath.Join(vdir, "evidence"), 0o755)
 	os.WriteFile(filepath.Join(vdir, "evidence", spec.ID+".json"), b, 0o644)
 }
+
+var selfValidation []mutantResult
 
 // floor emits a vacuity obligation: measured count must be >= floor.
 func floor(rule, what string, got, min int) Ob {
